@@ -16,6 +16,7 @@
 package server
 
 import (
+	"errors"
 	"fmt"
 	"math/rand"
 	"net"
@@ -23,16 +24,19 @@ import (
 	"os"
 	"strings"
 	"testing"
+	"time"
 
 	v3corepb "github.com/envoyproxy/go-control-plane/envoy/config/core/v3"
 	v3listenerpb "github.com/envoyproxy/go-control-plane/envoy/config/listener/v3"
 	v3routerpb "github.com/envoyproxy/go-control-plane/envoy/extensions/filters/http/router/v3"
 	v3httppb "github.com/envoyproxy/go-control-plane/envoy/extensions/filters/network/http_connection_manager/v3"
+	"google.golang.org/grpc/connectivity"
 	vlib "google.golang.org/grpc/internal/verifvlib"
 	"google.golang.org/grpc/internal/xds/bootstrap"
 	"google.golang.org/grpc/internal/xds/clients/xdsclient"
 	_ "google.golang.org/grpc/internal/xds/httpfilter/router" // registers the router HTTP filter
 	"google.golang.org/grpc/internal/xds/xdsclient/xdsresource"
+	"google.golang.org/grpc/internal/xds/xdsclient/xdsresource/version"
 	"google.golang.org/protobuf/proto"
 	"google.golang.org/protobuf/types/known/anypb"
 	"google.golang.org/protobuf/types/known/wrapperspb"
@@ -387,6 +391,140 @@ func c49Listener(chains []c49Chain, withDefault bool, listenAddr string) *v3list
 	return lis
 }
 
+// ---------------------------------------------------------------- the real Accept() path
+//
+// A share of the probes is not handed to lookup() directly but arrives as a
+// connection on a real listenerWrapper: created with the exported
+// NewListenerWrapper, configured by delivering the decoded Listener (and empty
+// route configurations) to the watchers it registers with the xDS client, and
+// driven through Accept().  The connection's addresses come in the forms package
+// net really produces: 4-byte IPv4, 16-byte IPv4 (net.ParseIP / dual-stack
+// sockets), IPv4-mapped literals, zoned link-local IPv6, plain IPv6.  Whatever
+// normalisation Accept() performs is thereby part of the code under test.
+
+type c49XDS struct {
+	bc  *bootstrap.Config
+	lds xdsclient.ResourceWatcher
+	rds []xdsclient.ResourceWatcher
+}
+
+func (x *c49XDS) BootstrapConfig() *bootstrap.Config { return x.bc }
+
+func (x *c49XDS) WatchResource(typeURL, _ string, w xdsclient.ResourceWatcher) func() {
+	if typeURL == version.V3ListenerURL {
+		x.lds = w
+	} else {
+		x.rds = append(x.rds, w)
+	}
+	return func() {}
+}
+
+type c49Conn2 struct {
+	local, remote net.Addr
+	closed        bool
+}
+
+func (c *c49Conn2) Read([]byte) (int, error)         { return 0, errC49NoConn }
+func (c *c49Conn2) Write(b []byte) (int, error)      { return len(b), nil }
+func (c *c49Conn2) Close() error                     { c.closed = true; return nil }
+func (c *c49Conn2) LocalAddr() net.Addr              { return c.local }
+func (c *c49Conn2) RemoteAddr() net.Addr             { return c.remote }
+func (c *c49Conn2) SetDeadline(time.Time) error      { return nil }
+func (c *c49Conn2) SetReadDeadline(time.Time) error  { return nil }
+func (c *c49Conn2) SetWriteDeadline(time.Time) error { return nil }
+
+var errC49NoConn = errors.New("c49: no more connections") // not Temporary(): Accept returns it
+
+type c49Lis struct {
+	addr net.Addr
+	next net.Conn
+}
+
+func (l *c49Lis) Accept() (net.Conn, error) {
+	if c := l.next; c != nil {
+		l.next = nil
+		return c, nil
+	}
+	return nil, errC49NoConn
+}
+func (l *c49Lis) Close() error   { return nil }
+func (l *c49Lis) Addr() net.Addr { return l.addr }
+
+type c49Server struct {
+	lis     *c49Lis
+	wrapped net.Listener
+	serving bool
+	forms   map[string]int64
+}
+
+// c49Serve brings a listenerWrapper into SERVING with the given (already
+// validated) Listener, the way the xDS client would.
+func c49Serve(bc *bootstrap.Config, upd xdsresource.ListenerUpdate, listenIP string) (*c49Server, error) {
+	x := &c49XDS{bc: bc}
+	srv := &c49Server{lis: &c49Lis{addr: &net.TCPAddr{IP: net.ParseIP(listenIP), Port: 8080}}, forms: map[string]int64{}}
+	srv.wrapped = NewListenerWrapper(ListenerWrapperParams{
+		Listener: srv.lis, ListenerResourceName: "c49-listener", XDSClient: x,
+		ModeCallback: func(_ net.Addr, mode connectivity.ServingMode, _ error) { srv.serving = mode == connectivity.ServingModeServing },
+	})
+	if x.lds == nil {
+		return nil, errors.New("NewListenerWrapper registered no Listener watch")
+	}
+	x.lds.ResourceChanged(&xdsresource.ListenerResourceData{Resource: upd}, func() {})
+	for k := 0; k < len(x.rds); k++ { // route configurations requested by the filter chains
+		x.rds[k].ResourceChanged(&xdsresource.RouteConfigResourceData{Resource: xdsresource.RouteConfigUpdate{}}, func() {})
+	}
+	if !srv.serving {
+		srv.wrapped.Close()
+		return nil, errors.New("listener did not become SERVING after the Listener and all route configurations were delivered")
+	}
+	return srv, nil
+}
+
+// c49TCPAddr renders ip in one of the forms package net produces.
+func (s *c49Server) tcpAddr(rng *rand.Rand, ipStr string, port int) *net.TCPAddr {
+	ip := c49IP(ipStr)
+	if v4 := ip.To4(); v4 != nil {
+		switch rng.Intn(3) {
+		case 0:
+			s.forms["ipv4-4byte"]++
+			return &net.TCPAddr{IP: append(net.IP(nil), v4...), Port: port}
+		case 1:
+			s.forms["ipv4-16byte"]++
+			return &net.TCPAddr{IP: append(net.IP(nil), ip.To16()...), Port: port}
+		default:
+			s.forms["ipv4-mapped-literal"]++
+			return &net.TCPAddr{IP: net.ParseIP("::ffff:" + v4.String()), Port: port}
+		}
+	}
+	if ip.IsLinkLocalUnicast() && rng.Intn(3) != 0 {
+		s.forms["ipv6-zoned-link-local"]++
+		return &net.TCPAddr{IP: ip, Port: port, Zone: "eth0"}
+	}
+	s.forms["ipv6-plain"]++
+	return &net.TCPAddr{IP: ip, Port: port}
+}
+
+// accept plays one incoming connection; "error" = the wrapper found no chain and
+// closed the connection.
+func (s *c49Server) accept(rng *rand.Rand, c c49Conn) (string, error) {
+	fc := &c49Conn2{local: s.tcpAddr(rng, c.Dst, 8080), remote: s.tcpAddr(rng, c.Src, c.SrcPort)}
+	s.lis.next = fc
+	conn, err := s.wrapped.Accept()
+	if err != nil {
+		if err == errC49NoConn && fc.closed {
+			return "error", nil
+		}
+		return "", fmt.Errorf("Accept: %v (connection closed=%v)", err, fc.closed)
+	}
+	defer conn.Close()
+	// the only place that looks inside the accepted connection: which chain was picked
+	cw, ok := conn.(*connWrapper)
+	if !ok || cw.filterChain == nil {
+		return "", fmt.Errorf("Accept returned %T without a filter chain", conn)
+	}
+	return cw.filterChain.routeConfigName, nil
+}
+
 // ---------------------------------------------------------------- generators
 
 var c49V4Pool = []c49Prefix{{"10.0.0.0", 8}, {"10.1.0.0", 16}, {"10.1.2.0", 24}, {"10.1.2.3", 32}, {"10.1.2.3", 16}, {"192.168.0.0", 16}, {"192.168.7.0", 24}, {"0.0.0.0", 0}, {"127.0.0.0", 8}, {"10.1.2.128", 25}}
@@ -651,6 +789,7 @@ func TestVerifC49(t *testing.T) {
 		upd := lrd.Resource
 		fcm := newFilterChainManager(&upd.TCPListener.FilterChains, &upd.TCPListener.DefaultFilterChain)
 		stages := map[string]bool{}
+		directWild, directSpec := make([]string, len(conns)), make([]string, len(conns))
 		for k, c := range conns {
 			surv := survivors[k]
 			want := "error"
@@ -664,6 +803,7 @@ func TestVerifC49(t *testing.T) {
 			if lerr != nil {
 				got = "error"
 			}
+			directWild[k] = got
 			r.Count("lookups_judged", 1)
 			if got != want {
 				cc := base
@@ -697,11 +837,12 @@ func TestVerifC49(t *testing.T) {
 		// listener bound to a specific address: destination prefixes are documented as
 		// not considered; every later stage is judged exactly (see c49RefSpecific).
 		fcm2 := newFilterChainManager(&upd.TCPListener.FilterChains, &upd.TCPListener.DefaultFilterChain)
-		for _, c := range conns {
+		for k, c := range conns {
 			got, lerr := c49Lookup(fcm2, c, false)
 			if lerr != nil {
 				got = "error"
 			}
+			directSpec[k] = got
 			ref := c49RefSpecific(chains, c)
 			cc := base
 			cc.Wildcard, cc.Conn, cc.Got = false, c, got
@@ -778,6 +919,54 @@ func TestVerifC49(t *testing.T) {
 				r.Nontrivial("specific/fallback/" + want)
 			}
 		}
+		// the same probes as real connections through listenerWrapper.Accept(), in
+		// every address form package net produces; the chain must be the one the
+		// reference-judged lookup of the canonical address gave
+		for _, mode := range []struct {
+			wildcard bool
+			ip       string
+			direct   []string
+		}{{true, "0.0.0.0", directWild}, {false, "10.1.2.3", directSpec}} {
+			u := upd
+			if !mode.wildcard { // the Listener resource must name the address the server listens on
+				res2, err2 := decoder.Decode(xdsclient.NewAnyProto(c49Any(c49Listener(chains, withDefault, mode.ip))), xdsclient.DecodeOptions{})
+				if err2 != nil {
+					r.Violation("valid-listener-rejected", fam, i, base, "the same listener bound to %s was rejected: %v", mode.ip, err2)
+					continue
+				}
+				u = res2.Resource.(*xdsresource.ListenerResourceData).Resource
+			}
+			srv, err := c49Serve(bc, u, mode.ip)
+			if err != nil {
+				r.Violation("listener-wrapper-not-serving", fam, i, base, "listenerWrapper on %s: %v", mode.ip, err)
+				continue
+			}
+			stride := 1 + len(conns)/1200
+			for k := rng.Intn(stride); k < len(conns); k += stride {
+				if mode.direct[k] == "" {
+					continue // the direct pass stopped at a violation before this probe
+				}
+				got, err := srv.accept(rng, conns[k])
+				r.Count("connections_through_listenerWrapper_Accept", 1)
+				if err != nil {
+					r.Violation("accept-path-broken", fam, i, base, "listenerWrapper.Accept on %s: %v", mode.ip, err)
+					break
+				}
+				if got != mode.direct[k] {
+					cc := base
+					cc.Wildcard, cc.Conn, cc.Got, cc.Want = mode.wildcard, conns[k], got, mode.direct[k]
+					r.Violation("accept-path-picks-different-chain-than-canonical-address", fam, i, cc,
+						"a connection local %s remote %s:%d accepted by listenerWrapper.Accept() (listener on %s; addresses as 4-byte / 16-byte / IPv4-mapped / zoned forms) got chain %s; the most-specific match for the canonical addresses is %s; chains %+v",
+						conns[k].Dst, conns[k].Src, conns[k].SrcPort, mode.ip, got, mode.direct[k], chains)
+					break
+				}
+			}
+			for f, n := range srv.forms {
+				r.Count("accept_address_form_"+f, n)
+				r.Nontrivial("accept/" + f + fmt.Sprintf("/wildcard=%v", mode.wildcard))
+			}
+			srv.wrapped.Close()
+		}
 		if i < 2 {
 			base.LookupsRun = len(conns)
 			r.Sample(base)
@@ -787,12 +976,12 @@ func TestVerifC49(t *testing.T) {
 		Level: "exploration",
 		Rule: "PRNG listeners: 1-6 filter chains with 0-2 destination and source prefixes (v4/v6 pools incl. unmasked, /0, /32, /128), source type, 0-2 source ports, raw_buffer/unsupported transport protocol, dropped criteria (destination_port, server_names, ALPN), a third with a near-duplicate chain, optional default chain -> real LDS decoder; " +
 			"probe connections = cross product of (first, inner, last address of every configured prefix + fixed v4/v6/loopback addresses) for local and remote x 4 source ports (hundreds to thousands of lookups per listener); " +
-			"every probe connection is looked up twice: listener bound to the wildcard address and to a specific address; " +
+			"every probe connection is looked up twice: listener bound to the wildcard address and to a specific address; up to ~1200 of them per listener and mode additionally arrive as connections on a real listenerWrapper (NewListenerWrapper + watcher callbacks + Accept) with addresses in 4-byte / 16-byte / IPv4-mapped / zoned link-local / plain IPv6 form; " +
 			"distinct = winning chain's (destination prefix length, transport, source type, source prefix length, port specificity) or fallback kind, rejected-with-tie per chain count, and for specific-address lookups (source type, source prefix length, port specificity, #destination prefixes reaching the source-prefix stage)",
 		Assumptions: []string{
 			"reference = Envoy FilterChainMatch / gRFC A36 most-specific-match over the proto; a configuration is ambiguous iff some probe connection leaves two chains after all stages",
 			"rejection of a configuration in which no probe connection finds a tie (e.g. tie shadowed by a more specific chain, same prefix listed twice in one chain) is counted, not judged",
-			"addresses are unmapped exactly as listenerWrapper.Accept does before lookup",
+			"direct lookup() probes pass canonical (unmapped, zone-less) addresses; the normalisation itself is exercised by the probes that go through listenerWrapper.Accept(), which must pick the chain of the canonical address",
 			"listeners bound to a specific address: grpc-go documents that destination prefixes are not considered; the reference skips only that stage and judges transport protocol (per destination prefix), source type, source prefix, source port and the default fallback exactly; chains separated only by their destination prefix are documented as not pre-validated there, so for such ties an error or any tied chain is accepted",
 		},
 		Floor: 40,
